@@ -1,17 +1,25 @@
 //! One module per property (DESIGN.md section 5).
 pub mod common;
 
+pub mod c06;
 pub mod c07;
 pub mod c08;
 pub mod c09;
+pub mod c10;
+pub mod c15;
+pub mod c16;
 
 use crate::runner::Property;
 
 pub fn get(id: &str) -> Option<Property> {
     match id {
+        "C06" => Some(c06::property()),
         "C07" => Some(c07::property()),
         "C08" => Some(c08::property()),
         "C09" => Some(c09::property()),
+        "C10" => Some(c10::property()),
+        "C15" => Some(c15::property()),
+        "C16" => Some(c16::property()),
         _ => None,
     }
 }
